@@ -576,8 +576,17 @@ def q4(run, project):
             lp_ = getattr(lp_, "_parent", None)
         av = lp_.target.id if lp_ is not None and isinstance(lp_.target, ast.Name) else "attribute"
         ok = parg is not None and norm(parg) in (f"{ae}.path + PathNode({av}._name)", f"{ae}.path / PathNode({av}._name)")
-    run.ob("Q4", ok, "attribute rows: path + PathNode(attr), no type, no hex column", "attribute row shape changed", module=mod,
-           node=rows[0] if rows else pa, func="pretty_attrs", construct="attribute row")
+    if not ok:
+        # the row is not built in place from the attribute (rows prepared by a helper, a record per field ...): what the
+        # printer yields for an attribute word is then folded over every attribute type of the layout (C17-M2's row fold:
+        # one row per mask, no type, no hex column, the path extended by the mask's name, the bits under the mask)
+        from ..report import RuleView
+        from . import c17
+        c17.m2_rows(RuleView(run, "M2", "Q4"), project, ctx.layout(project))
+        run.info("Q4: attribute rows are not built in place; judged by folding pretty_attrs over every attribute type (C17-M2)")
+    else:
+        run.ob("Q4", ok, "attribute rows: path + PathNode(attr), no type, no hex column", "attribute row shape changed", module=mod,
+               node=rows[0] if rows else pa, func="pretty_attrs", construct="attribute row")
     # attribute rows only from the main loop, after the event's own row, for MarshalEvents with attributes()
     calls = []
     for q, fn in mod.functions().items():
